@@ -39,6 +39,7 @@ type frameItem struct {
 	otype    types.Type // static type of the object written (struct / slice / map), when known
 	flo, fhi int        // constant leaf range inside otype (fhi == 0: whole object)
 	otid     int        // object-kind id for arrays and maps
+	etype    types.Type // static type of the pointee for `*p` items on non-struct-allocation pointers
 }
 
 type State struct {
